@@ -316,7 +316,89 @@ feature('try-import',
         ['try:', '    import m1 as {B1:$X/import-as}', 'except ImportError:', '    {B2:$X/assign} = None', '{R1:$X}'],
         ['try:', '    import m1 as $X; $X__s = {d1}', 'except ImportError:', '    $X = None; $X__s = {d2}', '{R1}'], binds='$X', c02=True, c03=False)
 
-for _n in ('star-import-project', 'star-import-conditional-names', 'star-import-stdlib', 'star-import-package'):
+feature('star-import-chain',
+        ['from mstar2 import *', '{R1:x1}', '{R2:fn1}', '{R3:own2}', '{R4:zz2}'],
+        ['from mstar2 import *', 'x1__s = fn1__s = own2__s = zz2__s = -1', '{R1}', '{R2}', '{R3}', '{R4}'], c02=False, c03=False)
+feature('star-import-chain3',
+        ['from mre import *', '{R1:x1}', '{R2:KK}', '{R3:own2}', '{R4:K1}'],
+        ['from mre import *', 'x1__s = KK__s = own2__s = K1__s = -1', '{R1}', '{R2}', '{R3}', '{R4}'], c02=False, c03=False)
+feature('from-import-reexport',
+        ['from mre import x1 as {B1:$X/from-import}, KK', '{R1:$X}', '{R2:KK}'],
+        ['from mre import x1 as $X, KK; $X__s = {d1}; KK__s = -1', '{R1}', '{R2}'], binds='$X', c02=True, c03=False)
+
+# ---- a comprehension (which opens a region of its own and joins back) with a walrus, in every expression position
+_CW = '[($X := q) for q in _it()]'
+_CWI = '[_id($X := q, $X__s := {d1}) for q in _it()]'
+
+
+def _comp_positions():
+    pos = {
+        'expr-stmt': (['@C', '{R1:$X}'], ['@I', '{R1}']),
+        'assign-value': (['zz = @C', '{R1:$X}'], ['zz = @I', '{R1}']),
+        'if-test': (['if @C:', '    {R1:$X}', 'else:', '    {R2:$X}', '{R3:$X}'], ['if @I:', '    {R1}', 'else:', '    {R2}', '{R3}']),
+        'elif-test': (['if _o():', '    pass', 'elif @C:', '    {R1:$X}', '{R2:$X}'], ['if _o():', '    pass', 'elif @I:', '    {R1}', '{R2}']),
+        'while-test': (['while _o() and @C:', '    {R1:$X}', '{R2:$X}'], ['while _w(-{d1}) and @I:', '    {R1}', '{R2}']),
+        'for-iter': (['for q2 in @C:', '    {R1:$X}', '{R2:$X}'], ['for q2 in @I:', '    {R1}', '{R2}']),
+        'with-item': (['with _cm(@C) as q2:', '    {R1:$X}', '{R2:$X}'], ['with _cm(@I) as q2:', '    {R1}', '{R2}']),
+        'call-arg': (['_id(0, @C)', '{R1:$X}'], ['_id(0, @I)', '{R1}']),
+        'return-value': (['def g():', '    return @C', 'g()'], ['def g():', '    return @I', 'g()']),
+        'def-default': (['def g(p=@C):', '    return p', '{R1:$X}'], ['def g(p=@I):', '    return p', '{R1}']),
+        'decorator': (['@_dec(@C)', 'def g():', '    pass', '{R1:$X}'], ['@_dec(@I)', 'def g():', '    pass', '{R1}']),
+        'class-base': (['class K(_id(object, @C)):', '    pass', '{R1:$X}'], ['class K(_id(object, @I)):', '    pass', '{R1}']),
+        'ternary': (['zz = 1 if @C else 2', '{R1:$X}'], ['zz = 1 if @I else 2', '{R1}']),
+        'boolop': (['zz = _o() or @C', '{R1:$X}'], ['zz = _o() or @I', '{R1}']),
+        'subscript': (['zz = [0, 1, 2][len(@C)]', '{R1:$X}'], ['zz = [0, 1, 2][len(@I)]', '{R1}']),
+        'lambda-default': (['zz = lambda p=@C: p', '{R1:$X}'], ['zz = lambda p=@I: p', '{R1}']),
+        'assert': (['assert @C or True', '{R1:$X}'], ['assert @I or True', '{R1}']),
+        'try-body-then-handler': (['try:', '    zz = @C', '    _r()', 'except E_:', '    {R1:$X}', '{R2:$X}'], ['try:', '    zz = @I', '    _r()', 'except E_:', '    {R1}', '{R2}']),
+    }
+    for name, (plain, instr) in pos.items():
+        pl = [l.replace('@C', _CW.replace('($X :=', '({B1:$X/walrus-in-comp} :=')) for l in plain]
+        il = [l.replace('@I', _CWI) for l in instr]
+        feature('comp-in-' + name, pl, il, binds='$X' if name != 'return-value' else '', c02=(name not in ('return-value',)), c03=False)
+        # and the same position with a comprehension that binds nothing, followed by an ordinary binding: the region after the
+        # comprehension must still be connected to what follows
+        pl2 = [l.replace('@C', '[q for q in _it()]') for l in plain]
+        il2 = [l.replace('@I', '[q for q in _it()]').replace('-{d1}', '-{d9}') for l in instr]
+        if name not in ('return-value', 'while-test'):
+            feature('plain-comp-in-' + name, ['{B9:$X/assign} = 0'] + pl2, ['$X = 0; $X__s = {d9}'] + il2, binds='$X', c02=True, c03=(name in ('expr-stmt', 'assign-value', 'call-arg', 'if-test', 'for-iter')))
+
+
+_comp_positions()
+
+# ---- value expressions whose last AST node is not the last one in the text (binding location = end of the value)
+for _n, _pl, _il in [
+        ('call-kw-then-star', '{B1:$X/assign} = _id(0, k=1, *[{R1:$X}])', '$X = _id(0, k=1, *[{R1}])'),
+        ('call-star-then-kw', '{B1:$X/assign} = _id(0, *[0], k={R1:$X})', '$X = _id(0, *[0], k={R1})'),
+        ('call-pos-then-kw', '{B1:$X/assign} = _id({R1:$Y}, k={R2:$X})', '$X = _id({R1}, k={R2})'),
+        ('call-kwargs-last', '{B1:$X/assign} = _id(0, k=1, **{{"z": {R1:$X}}})', '$X = _id(0, k=1, **{{"z": {R1}}})'),
+        ('ternary', '{B1:$X/assign} = {R1:$Y} if _o() else {R2:$X}', '$X = {R1} if _o() else {R2}'),
+        ('ternary-test-last-in-ast', '{B1:$X/assign} = ({R1:$X} if\n    _o() else 0)', '$X = ({R1} if\n    _o() else 0)'),
+        ('dict-display', '{B1:$X/assign} = {{0: {R1:$Y}, 1: {R2:$X}}}', '$X = {{0: {R1}, 1: {R2}}}'),
+        ('comp-elt', '{B1:$X/assign} = [{R1:$X} for q in _it()]', '$X = [{R1} for q in _it()]'),
+        ('comp-cond', '{B1:$X/assign} = [q for q in _it() if {R1:$X}]', '$X = [q for q in _it() if {R1}]'),
+        ('lambda-default', '{B1:$X/assign} = lambda p={R1:$X}: p', '$X = lambda p={R1}: p'),
+        ('fstring', '{B1:$X/assign} = f"{{{R1:$X}}}"', '$X = f"{{{R1}}}"'),
+        ('subscript-slice', '{B1:$X/assign} = [0, 1][0:len([{R1:$X}])]', '$X = [0, 1][0:len([{R1}])]'),
+        ('compare-chain', '{B1:$X/assign} = 0 < 1 < _id(2, {R1:$X})', '$X = 0 < 1 < _id(2, {R1})'),
+        ('multiline-call', '{B1:$X/assign} = _id(0,\n    {R1:$X})', '$X = _id(0,\n    {R1})'),
+        ('multiline-first-longer', '{B1:$X/assign} = _id(_id(_id(0)),\n  {R1:$X})', '$X = _id(_id(_id(0)),\n  {R1})'),
+        ('walrus-self', '({B1:$X/walrus} := _id(0, {R1:$X}))', '_id($X := _id(0, {R1}), $X__s := {d1})'),
+        ('ann-assign-self', '{B1:$X/ann-assign}: int = _id(0, k={R1:$X})', '$X: int = _id(0, k={R1})'),
+        ('aug-like', '{B1:$X/assign} = {R1:$X} + _id(1, k=2)', '$X = {R1} + _id(1, k=2)')]:
+    _plain = _pl.replace('{{', '\x01').replace('}}', '\x02').split('\n')
+    _plain = [l.replace('\x01', '{').replace('\x02', '}') for l in _plain]
+    _instr = [l.replace('{{', '{').replace('}}', '}') for l in _il.split('\n')]
+    if _n != 'walrus-self':
+        _instr.append('$X__s = {d1}')
+    # C02/C03 exclude comprehension inner expressions that read a name the enclosing statement rebinds
+    _dom = _n not in ('comp-elt', 'comp-cond')
+    feature('self-rhs-' + _n, _plain + ['{R9:$X}'], _instr + ['{R9}'], binds='$X', c02=_dom, c03=_dom)
+
+for _n in ('star-import-chain', 'star-import-chain3'):
+    pass
+
+for _n in ('star-import-project', 'star-import-conditional-names', 'star-import-stdlib', 'star-import-package', 'star-import-chain', 'star-import-chain3'):
     FEATURES[_n]['toplevel'] = True
 
 
